@@ -105,7 +105,9 @@ class Driver:
         self.lines = {}
         self.nlines = 0
         self.now = 1700000000
-        self.nows = {str(self.now)}
+        # the controller's LOCAL clock runs tzoff seconds ahead of UTC: a time reply must carry local time
+        self.tzoff = (hash((version, flavour, bool(persistence_file), raising_cb)) % 25 - 12) * 3600
+        self.nows = {str(self.now + self.tzoff)}
         self.alive = True
         # clock as seen from the handlers
         drv = self
@@ -113,7 +115,15 @@ class Driver:
         class _T:
             @staticmethod
             def localtime(*a):
+                return _time.gmtime(drv.now + drv.tzoff)
+
+            @staticmethod
+            def gmtime(*a):
                 return _time.gmtime(drv.now)
+
+            @staticmethod
+            def time():
+                return float(drv.now)
         mysensors.handler.time = _T
         mysensors.task.threading.Timer = FakeTimer   # virtual timer (only used with persistence)
         self.aproxy = None
@@ -343,7 +353,7 @@ class Driver:
         """A complete line arrives (what BaseMySensorsProtocol.handle_line does)."""
         if now is not None:
             self.now = now
-            self.nows.add(str(now))
+            self.nows.add(str(now + self.tzoff))
         rec = self.line_rec(line)
         self.ops.append(["recv", line, self.now])
         raised = None
